@@ -1,3 +1,104 @@
-import GoagModel.Ref
+import GoagModel.Props.C16
+/-
+  C14 — "exactly one response is written", on the model.
+
+  `Serve.serve` is the model of the emitted `API.ServeHTTP` pipeline (spec-file shortcut, route
+  lookup, not-found / CORS arms, middleware wrapping, security wrapper, operation handler that
+  calls `Parse()`); it is total, so it has no panicking path, and it is tied to the generated
+  code by the routing / security / parameter corpora (every request is served under `recover`
+  with a counting ResponseWriter and compared with it).
+
+  Theorem: for EVERY api plan, configuration (any number of middlewares, any authenticator
+  table, with or without not-found / spec / CORS handlers) and request, the trace of `serve`
+  contains exactly one response event — whichever arm answers, it answers once.
+
+  What this does NOT cover (explored, not proved): a panic inside the generated Go code itself
+  (slice expressions, nil maps, nil function values) — the model has no partial operations. The
+  checked-slicing fault model sketched in §4.14 was not built.
+-/
 namespace Goag.Serve
+
+def finals (evs : List Ev) : Nat := (evs.filter isFinal).length
+
+theorem finals_append (a b : List Ev) : finals (a ++ b) = finals a + finals b := by
+  simp [finals, List.filter_append]
+
+theorem finals_map_enter (n : Nat) (t : String) : finals ((List.range n).map (fun i => Ev.mwEnter i t)) = 0 := by
+  unfold finals
+  have : ((List.range n).map (fun i => Ev.mwEnter i t)).filter isFinal = [] := by
+    rw [List.filter_eq_nil_iff]
+    intro e he
+    obtain ⟨i, _, rfl⟩ := List.mem_map.mp he
+    simp [isFinal]
+  simp [this]
+
+theorem finals_map_leave (l : List Nat) : finals (l.map Ev.mwLeave) = 0 := by
+  unfold finals
+  have : (l.map Ev.mwLeave).filter isFinal = [] := by
+    rw [List.filter_eq_nil_iff]
+    intro e he
+    obtain ⟨i, _, rfl⟩ := List.mem_map.mp he
+    simp [isFinal]
+  simp [this]
+
+theorem finals_nil : finals [] = 0 := rfl
+
+theorem finals_cons (e : Ev) (l : List Ev) : finals (e :: l) = (if isFinal e then 1 else 0) + finals l := by
+  unfold finals
+  rw [List.filter_cons]
+  split <;> simp <;> omega
+
+theorem authOr_no_final (refs : List AuthRef) (cfg : Cfg) (req : Req) : finals (authOr refs cfg req).1 = 0 := by
+  induction refs with
+  | nil => simp [authOr, finals]
+  | cons r rs ih =>
+    unfold authOr
+    split
+    · exact ih
+    · split
+      · exact ih
+      · split
+        · simp [finals_cons, finals_nil, isFinal]
+        · simp only [finals_cons, isFinal, ih]
+          simp
+
+theorem opHandler_one_final (leaf : LeafTable) (api : ApiM) (cfg : Cfg) (o : OpM) (r : RCtx) :
+    finals (opHandler leaf api cfg o r) = 1 := by
+  unfold opHandler
+  cases r.tag <;> cases cfg.parse <;> simp [finals_append, finals_cons, finals_nil, isFinal]
+
+theorem secured_one_final (leaf : LeafTable) (api : ApiM) (cfg : Cfg) (o : OpM) (r : RCtx) :
+    finals (secured leaf api cfg o r) = 1 := by
+  unfold secured
+  split
+  · exact opHandler_one_final ..
+  · have hno := authOr_no_final o.auth cfg r.req
+    cases hao : authOr o.auth cfg r.req with
+    | mk evs res =>
+      rw [hao] at hno
+      simp only at hno
+      cases res with
+      | some st =>
+        obtain ⟨scheme, tok⟩ := st
+        simp only
+        rw [finals_append, opHandler_one_final, hno]
+      | none =>
+        simp only
+        rw [finals_append, hno]
+        simp [finals_cons, finals_nil, isFinal]
+
+/-- **C14 (model).** Every request gets exactly one response. -/
+theorem serve_exactly_one_response (leaf : LeafTable) (api : ApiM) (cfg : Cfg) (req : Req) :
+    finals (serve leaf api cfg req) = 1 := by
+  unfold serve
+  split
+  · simp [finals_cons, finals_nil, isFinal]
+  · split
+    · unfold notFound
+      split <;> simp [finals_cons, finals_nil, isFinal]
+    · simp [finals_cons, finals_nil, isFinal]
+    · rename_i o _
+      rw [middleware_trace]
+      simp only [finals_append, finals_map_enter, finals_map_leave, secured_one_final]
+
 end Goag.Serve
